@@ -5,8 +5,8 @@ of every in-range coordinate vector and of vectors moved by +-1, +-2 periods on 
 direction x displacement in [-2*dim, 2*dim]; per (grid, remain_dims): for every rank the sub-grid it belongs to (members, new rank, kept
 dims/periods/coordinates) and coordinates / shifts inside the sub-grid; per Dims_create input whether the call must fail.
 Scope: quick = every grid with <= 3 dims and <= 12 nodes x all periodicity patterns (+ every remain vector) + seeded sample of grids with
-<= 4 dims / <= 64 nodes; thorough = every grid <= 4 dims / <= 24 nodes x all periodicity patterns, every grid <= 4 dims / 64 nodes with three
-periodicity patterns, + a larger seeded sample with random patterns.
+<= 4 dims / <= 64 nodes; thorough = every grid <= 4 dims / <= 24 nodes x all periodicity patterns (+ every remain vector), every grid <= 4 dims /
+25..64 nodes with three periodicity patterns (none, all, alternating), + a larger seeded sample with random patterns and remain vectors.
 T: MPI_Dims_create's result is not unique: what SMPI returned is fed back to TLC (MpiCartVal.tla), which evaluates the post-condition
 (product = nnodes, given entries kept, positive entries, failure iff nnodes is not a multiple of the product of the given entries).
 M: GridLaws / SubLaws (rank<->coords bijection, shift inverse laws, sub-grids partition the grid, the fast evaluators used by the generator equal
@@ -17,7 +17,7 @@ The topology inquiries are guarded: a SIGFPE raised inside one call (division by
 
 MUTATIONS
 """
-import json, os
+import json, os, threading
 import vlib
 import mpi_algebra_common as A
 from mpi_algebra_common import U, PN
@@ -178,6 +178,53 @@ def judge(c, res):
     return out
 
 
+def dims_class(c, why):
+    if why == "accepted-impossible" and all(c["nn"] % g == 0 for g in c["given"] if g):
+        return why + ":each-entry-divides"
+    return why
+
+
+def judge_dims(ctx, cases, results, tag):
+    """Dims_create: the specification judges what SMPI returned (T: MpiCartVal). -> list of (case, signature, what), count of
+    results that are not non-increasing (information)"""
+    out, recs, byid = [], [], {}
+    for c in cases:
+        res = results[c["id"]]
+        if res["crash"]:
+            out.append((c, "C33:dims_create:crash", "SMPI died in MPI_Dims_create(%d, %s)" % (c["nn"], c["given"])))
+            continue
+        seen_r = set()
+        for r in range(np_of(c)):
+            o = [x for x in res["ranks"].get(r, []) if "end" not in x]
+            if len(o) != 1:
+                out.append((c, "C33:dims_create:output", "rank %d printed %d records" % (r, len(o))))
+                continue
+            key = (o[0]["e"], tuple(o[0]["res"]))
+            if key in seen_r:
+                continue
+            seen_r.add(key)
+            rid = len(recs) + 1
+            byid[rid] = (c, o[0])
+            recs.append({"id": rid, "nn": c["nn"], "given": c["given"], "e": o[0]["e"], "res": o[0]["res"]})
+    unordered = 0
+    if recs:
+        rf = os.path.join(ctx.scratch, "dims_results_%s.json" % tag)
+        json.dump(recs, open(rf, "w"))
+        verdicts = A.tlc_validate(ctx, "MpiCartVal.tla", os.path.join(A.MSPEC, "MpiCartVal.cfg"), {"RESULTS": rf})
+        if len(verdicts) != len(recs):
+            raise vlib.InfraError("MpiCartVal printed %d verdicts for %d results" % (len(verdicts), len(recs)))
+        for v in verdicts:
+            c, o = byid[v["id"]]
+            if v["mustfail"] != c["mustfail"]:
+                raise vlib.InfraError("generator and validator disagree on mustfail for %s" % c)
+            if not v["ordered"]:
+                unordered += 1
+            if v["why"] != "ok":
+                out.append((c, "C33:dims_create:" + dims_class(c, v["why"]), "MPI_Dims_create(nnodes %d, dims %s) returned %s with dims %s: %s" %
+                            (c["nn"], c["given"], "success" if o["e"] == 0 else "an error", o["res"], v["why"])))
+    return out, len(recs), unordered
+
+
 def run(ctx):
     quick = ctx.quick
     jobs = []
@@ -194,34 +241,63 @@ def run(ctx):
         small("dims", 1, MaxDims=3, MaxNodes=16, Kinds='{"dims"}')
         nsim, depth = 4, 36
     else:
-        small("s24", 12, MaxDims=4, MaxNodes=24, Kinds='{"cart", "sub"}')
-        small("s64", 14, MaxDims=4, MinNodes=25, MaxNodes=64, AllPer=False, Kinds='{"cart", "sub"}')
+        small("s24", 16, MaxDims=4, MaxNodes=24, Kinds='{"cart", "sub"}')
+        small("s64", 24, MaxDims=4, MinNodes=25, MaxNodes=64, AllPer=False, Kinds='{"cart"}')
         small("dims", 4, MaxDims=4, MaxNodes=64, Kinds='{"dims"}')
-        nsim, depth = 10, 400
+        nsim, depth = 12, 300
     cfg = A.write_cfg(ctx, "c_sim.cfg", "SpecSim", {"MaxDims": 4, "MinNodes": 1, "MaxNodes": 64, "AllPer": True, "LawMax": 6,
                                                      "Kinds": '{"cart", "sub"}' if not quick else allk, "NSlices": 1, "Slice": 0, "Extra": 1})
     for j in range(nsim):
         jobs.append({"cfg": cfg, "simulate": (depth, ctx.seed * 1000 + j + 1), "tag": "sim %d" % j})
-    cases = A.tlc_cases(ctx, "MpiCartGen.tla", jobs, timeout=900 if quick else 1700)
-    seen, uniq = set(), []
-    for c in cases:
-        key = vlib.canon_hash([c["k"], c.get("d"), c.get("p"), c.get("rem"), c.get("np"), c.get("nn"), c.get("given")])
-        if key not in seen:
-            seen.add(key)
-            uniq.append(c)
-    cases = uniq
-    for c in cases:
-        ctx.count([c["k"], c.get("d"), c.get("p"), c.get("rem"), c.get("np"), c.get("nn"), c.get("given")], nontrivial=nontrivial(c))
-    for c in (cases[:1] + cases[len(cases) // 3:len(cases) // 3 + 1] + cases[-2:]):
-        s = {k: v for k, v in c.items() if k in ("k", "d", "p", "rem", "np", "nn", "given", "mustfail", "sd", "rk")}
-        if c["k"] == "cart":
-            s["shift_of_rank0"] = c["shift"][0]
-        ctx.sample(s)
+
+    def keyof(c):
+        return [c["k"], c.get("d"), c.get("p"), c.get("rem"), c.get("np"), c.get("nn"), c.get("given")]
+
+    def judge2(c, res):     # used by the confirmation re-run: Dims_create verdicts come from TLC
+        if c["k"] != "dims":
+            return judge(c, res)
+        c2 = dict(c, id=0)
+        found, _, _ = judge_dims(ctx, [c2], {0: res}, "confirm%d" % threading.get_ident())
+        return [(sig, what, None) for _, sig, what in found]
+
+    rep = A.Reporter(ctx, tokens_of, np_of, judge2)
+    dd = A.Dedup()
     bk = {}
-    for c in cases:
-        bk[c["k"]] = bk.get(c["k"], 0) + 1
+    tot = {"cases": 0, "views": 0, "maxn": 0, "dims_validated": 0, "unordered": 0, "slice": 0}
+
+    def process(cases):
+        cases = [c for c in cases if dd.fresh(keyof(c))]
+        results = A.run_all(ctx, cases, tokens_of, np_of, chunk=60 if quick else 30, timeout=300)
+        with A._lock:
+            tot["slice"] += 1
+            tag = "s%d" % tot["slice"]
+            for c in cases:
+                ctx.count(keyof(c), nontrivial=nontrivial(c))
+                bk[c["k"]] = bk.get(c["k"], 0) + 1
+                tot["cases"] += 1
+                tot["views"] += np_of(c)
+                if "d" in c:
+                    tot["maxn"] = max(tot["maxn"], prod(c["d"]))
+            for c in cases[:1] + cases[-1:]:
+                smp = {k: v for k, v in c.items() if k in ("k", "d", "p", "rem", "np", "nn", "given", "mustfail", "sd", "rk")}
+                if c["k"] == "cart":
+                    smp["shift_of_rank0"] = c["shift"][0]
+                ctx.sample(smp, limit=6)
+        for c in cases:
+            for sig, what, detail in judge(c, results[c["id"]]):
+                rep.add(c, sig, what, detail)
+        found, nval, unordered = judge_dims(ctx, [c for c in cases if c["k"] == "dims"], results, tag)
+        for c, sig, what in found:
+            rep.add(c, sig, what, None)
+        with A._lock:
+            tot["dims_validated"] += nval
+            tot["unordered"] += unordered
+
+    A.pipeline(ctx, "MpiCartGen.tla", jobs, process, par=len(jobs) if quick else 8, timeout=900 if quick else 1700)
     ctx.cov["cases_by_kind"] = bk
-    ctx.cov["max_nodes"] = max([prod(c["d"]) for c in cases if "d" in c] or [0])
+    ctx.cov["max_nodes"] = tot["maxn"]
+    ctx.cov["dims_create_results_validated_by_tlc"] = tot["dims_validated"]
+    ctx.cov["dims_create_results_not_non_increasing"] = tot["unordered"]
     ctx.cov["exhaustive"] = True
     ctx.cov["rule"] = ("cases and expected results printed by TLC from MpiCartGen: %s; + %d seeded -simulate behaviours of %d cases over grids of <= 4 dims / "
                        "<= 64 nodes (seed %d); each grid is created with MPI_Cart_create over an smpirun of that many ranks (+1 rank beyond the grid for "
@@ -229,84 +305,16 @@ def run(ctx):
                        "canonical hash of the inputs" % (
                            "every grid with <= 3 dims and <= 12 nodes x every periodicity pattern, every remain_dims vector, every Dims_create input with "
                            "nnodes <= 16, <= 3 dims, given entries in 0..6" if quick else
-                           "every grid with <= 4 dims and <= 24 nodes x every periodicity pattern, every grid with <= 4 dims and 25..64 nodes x 3 periodicity "
-                           "patterns, every remain_dims vector, every Dims_create input with nnodes <= 64, <= 4 dims, given entries in 0..6", nsim, depth, ctx.seed))
-    results = A.run_all(ctx, cases, tokens_of, np_of, chunk=60 if quick else 40, timeout=300)
-    rep = A.Reporter(ctx, tokens_of, np_of, judge)
-    views = 0
-    for c in cases:
-        views += np_of(c)
-        for sig, what, detail in judge(c, results[c["id"]]):
-            rep.add(c, sig, what, detail)
-    # ---- Dims_create: the specification judges the results (T)
-    dims = [c for c in cases if c["k"] == "dims"]
-    recs, byid = [], {}
-    for c in dims:
-        res = results[c["id"]]
-        if res["crash"]:
-            rep.add(c, "C33:dims_create:crash", "SMPI died in MPI_Dims_create(%d, %s)" % (c["nn"], c["given"]), json.dumps(res["crash"]))
-            continue
-        seen_r = set()
-        for r in range(np_of(c)):
-            o = [x for x in res["ranks"].get(r, []) if "end" not in x]
-            if len(o) != 1:
-                rep.add(c, "C33:dims_create:output", "rank %d printed %d records" % (r, len(o)), None)
-                continue
-            key = (o[0]["e"], tuple(o[0]["res"]))
-            if key in seen_r:
-                continue
-            seen_r.add(key)
-            rid = len(recs) + 1
-            byid[rid] = (c, o[0])
-            recs.append({"id": rid, "nn": c["nn"], "given": c["given"], "e": o[0]["e"], "res": o[0]["res"]})
-    unordered = 0
-    if recs:
-        rf = os.path.join(ctx.scratch, "dims_results.json")
-        json.dump(recs, open(rf, "w"))
-        verdicts = A.tlc_validate(ctx, "MpiCartVal.tla", os.path.join(A.MSPEC, "MpiCartVal.cfg"), {"RESULTS": rf})
-        if len(verdicts) != len(recs):
-            raise vlib.InfraError("MpiCartVal printed %d verdicts for %d results" % (len(verdicts), len(recs)))
-        for v in verdicts:
-            c, o = byid[v["id"]]
-            if v["mustfail"] != c["mustfail"]:
-                raise vlib.InfraError("generator and validator disagree on mustfail for %s" % c)
-            if not v["ordered"]:
-                unordered += 1
-            if v["why"] != "ok":
-                cls = v["why"]
-                if cls == "accepted-impossible" and all(c["nn"] % g == 0 for g in c["given"] if g):
-                    cls += ":each-entry-divides"
-                rep.add(c, "C33:dims_create:" + cls, "MPI_Dims_create(nnodes %d, dims %s) returned %s with dims %s: %s" %
-                        (c["nn"], c["given"], "success" if o["e"] == 0 else "an error", o["res"], v["why"]), None)
-        ctx.cov["dims_create_results_validated_by_tlc"] = len(recs)
-        ctx.cov["dims_create_results_not_non_increasing"] = unordered
-
-    # the Reporter's confirmation re-judges with judge(); Dims_create verdicts come from TLC, so confirm them here
-    def judge2(c, res):
-        if c["k"] != "dims":
-            return judge(c, res)
-        out = []
-        rr = []
-        for r in range(np_of(c)):
-            o = [x for x in res["ranks"].get(r, []) if "end" not in x]
-            if o:
-                rr.append({"id": len(rr) + 1, "nn": c["nn"], "given": c["given"], "e": o[0]["e"], "res": o[0]["res"]})
-        rf2 = os.path.join(ctx.scratch, "dims_confirm.json")
-        json.dump(rr, open(rf2, "w"))
-        for v in A.tlc_validate(ctx, "MpiCartVal.tla", os.path.join(A.MSPEC, "MpiCartVal.cfg"), {"RESULTS": rf2}):
-            if v["why"] != "ok":
-                cls = v["why"]
-                if cls == "accepted-impossible" and all(c["nn"] % g == 0 for g in c["given"] if g):
-                    cls += ":each-entry-divides"
-                out.append(("C33:dims_create:" + cls, "", None))
-        return out
-    rep.judge = judge2
-    ctx.cov["traces_validated_against_impl"] += len(cases)
-    ctx.cov["rank_views_compared"] = views
+                           "every grid with <= 4 dims and <= 24 nodes x every periodicity pattern and every remain_dims vector, every grid with <= 4 dims and "
+                           "25..64 nodes x 3 periodicity patterns, every Dims_create input with nnodes <= 64, <= 4 dims, given entries in 0..6",
+                           nsim, depth, ctx.seed))
+    ctx.cov["traces_validated_against_impl"] += tot["cases"]
+    ctx.cov["rank_views_compared"] = tot["views"]
     rep.flush()
     ctx.assumptions += ["TLC evaluates the specification, not the code: the binding is the replay of the generated cases on every rank",
                         "Cart_coords of all ranks is requested by rank 0 and by every rank of grids of <= 12 nodes; on larger grids the other ranks ask for 5 ranks",
                         "coordinates out of range on non-periodic dimensions, directions >= ndims and grids larger than the communicator are erroneous in MPI and not generated",
                         "Dims_create: only the stated post-condition is an alarm criterion; 'as close to each other as possible' and the non-increasing order "
                         "of MPI are not part of the property (the count of results that are not non-increasing is reported as information)",
-                        "the rank order inside a Cart_sub communicator is taken to be the row-major order of the kept coordinates (the new communicator is a Cartesian grid)"]
+                        "the rank order inside a Cart_sub communicator is taken to be the row-major order of the kept coordinates (the new communicator is a Cartesian grid)",
+                        "thorough tier: grids of 25..64 nodes are enumerated with 3 periodicity patterns (none, all, alternating) and their sub-grids are sampled, not enumerated"]
